@@ -362,6 +362,7 @@ macro_rules! c03_proof {
     };
 }
 c03_proof!(c03_osu_pgradual_n0, 0, 0, 10);
+c03_proof!(c03_osu_pgradual_n1, 1, 0, 10);
 c03_proof!(c03_osu_pgradual_n2, 2, 1, 10);
 c03_proof!(c03_osu_pgradual_n3, 3, 2, 10);
 
@@ -376,7 +377,7 @@ s1_proof!(s1_osu_moved_step_n2, 2, 1, 6, SKIP_NTH_BEYOND, 0, true);
 s1_proof!(s1_osu_moved_step_n3, 3, 2, 7, SKIP_NTH_BEYOND, 0, true);
 
 verif_replay_table!(verif_replay_osu_gradual;
-    c03_osu_pgradual_n0, c03_osu_pgradual_n2, c03_osu_pgradual_n3,
+    c03_osu_pgradual_n0, c03_osu_pgradual_n1, c03_osu_pgradual_n2, c03_osu_pgradual_n3,
     kf_osu_nth_beyond_end, s1_osu_moved_step_n2, s1_osu_moved_step_n3,
     s1_osu_step_n0, s1_osu_step_n1, s1_osu_step_n2, s1_osu_step_n3, s1_osu_step_n4,
 );
